@@ -1,4 +1,5 @@
 import UscxmlVerif.Proofs.NameMatch
+import UscxmlVerif.Proofs.TrieSpec
 /-!
 # C12 — Event descriptors match exactly as the Recommendation prescribes
 
@@ -70,5 +71,29 @@ example : nameMatch ([97, 32, 98] /- a b -/) ([98] /- b -/) = true := by decide
 example : nameMatch ([97, 32, 98] /- a b -/) ([97] /- a -/) = true := by decide
 /-- matching is case sensitive -/
 example : nameMatch ([70, 111, 111] /- Foo -/) ([102, 111, 111] /- foo -/) = false := by decide
+
+/-! ## the static resolution of descriptors in the Promela and VHDL back-ends -/
+
+/-- **the transpilers' trie answers prefix queries exactly**: for every list of words and every prefix, `getWordsWithPrefix` on
+the trie `addWord` built holds exactly - for every word whose (non-empty, `.`-separated) tokens extend those of the prefix - the
+first word that was added with those tokens -/
+theorem trie_answers_prefix_queries (ws : List Bytes) (p v : Bytes) :
+    v ∈ Model.Trie.query (Model.Trie.build ws) p ↔
+      ∃ w ∈ ws, (Model.Trie.toks p).isPrefixOf (Model.Trie.toks w) = true ∧
+        ws.find? (fun u => Model.Trie.toks u == Model.Trie.toks w) = some v :=
+  Proofs.TrieSpec.query_build ws p v
+
+/-- **what the back-ends resolve statically is the Recommendation's matching**: for well-formed, pairwise distinct event names and
+a well-formed descriptor other than `*`, the names listed for the descriptor are exactly the names it matches (3.12.1) -/
+theorem static_resolution_is_spec (ws : List Bytes) (hwf : ∀ n ∈ ws, wfName n = true)
+    (hd : ∀ a ∈ ws, ∀ b ∈ ws, Model.Trie.toks a = Model.Trie.toks b → a = b) (d : Bytes) (hstar : d ≠ [42])
+    (hwd : wfName (stripSuffix d) = true) (n : Bytes) :
+    n ∈ Model.Trie.query (Model.Trie.build ws) (stripSuffix d) ↔ n ∈ ws ∧ descMatches d n = true :=
+  Proofs.TrieSpec.trie_resolves_descriptor ws hwf hd d hstar hwd n
+
+/-- the hypotheses are met, and the answer is the expected one, on concrete names: `a.b`, `a.c`, `b` and the descriptor `a.*` -/
+example : Model.Trie.query (Model.Trie.build [[97, 46, 98], [97, 46, 99], [98]]) (stripSuffix [97, 46, 42]) = [[97, 46, 98], [97, 46, 99]] := by decide
+example : wfName [97, 46, 98] = true ∧ wfName (stripSuffix [97, 46, 42]) = true ∧ descMatches [97, 46, 42] [97, 46, 98] = true ∧
+    descMatches [97, 46, 42] [98] = false := by decide
 
 end UscxmlVerif.Properties.C12
